@@ -116,6 +116,11 @@ fn validator_path(l: &[(H, u64)]) -> MerkleHash {
     *ret.hash()
 }
 
+/// the aggregate oracle without the bookkeeping (used by the libFuzzer target merkle_tree)
+pub fn check_agg(c: &AggCase) -> Result<(), String> {
+    agg_oracle(c, &mut Case { nontrivial: false, labels: Vec::new(), note: None })
+}
+
 fn agg_oracle(c: &AggCase, info: &mut Case) -> Result<(), String> {
     let list = materialize(&c.entries);
     let mut salt = [0u8; 32];
